@@ -177,7 +177,7 @@ def theorem_instances(rng, n):
     out = []
     for j in range(n):
         H = samegen.gen_header(rng, nloc=rng.choice([1, 2, 5, 13, 31]))
-        kind = ["two_of_three", "two_only", "trailer", "clean", "no_gap", "hold"][j % 6]
+        kind = ["two_of_three", "two_only", "trailer", "clean", "no_gap", "hold", "lossy"][j % 7]
         t1 = rng.range(100, 100000)
         mk = lambda toks: ",".join(toks)
         if kind == "two_of_three":
@@ -227,6 +227,22 @@ def theorem_instances(rng, n):
                 + ["a%d:%s" % (u3, hx(ns[2]))] + ["i%d" % t for t in p6]
             exp = [(tf if tf else u1, H), (u2, "eom")]
             out.append(("C01_clean_transmission_exact" if kind == "clean" else "C02_no_voice_gap_transmission", mk(toks), {"all": exp}))
+        elif kind == "lossy":
+            # C02_clean_lossy_transmission: any two header bursts, hold released, two or three trailer bursts starting NN
+            third = rng.chance(1, 2)
+            ns = [b"NN" + bytes(rng.choice(samegen.ALLOWED) for _ in range(rng.range(0, 10))) for _ in range(3)]
+            ta = t1; tb = ta + rng.range(300, 2400)
+            p1 = _polls(rng, ta + 1, tb, 10); pa = _polls(rng, tb + 1, tb + HOLD, 8)
+            tf = tb + HOLD + rng.range(0, 40); u1 = tf + rng.range(0, 1500); pb = _polls(rng, tf + 1, u1, 6)
+            u2 = u1 + rng.range(300, 1100); u3 = u2 + rng.range(300, 1100)
+            if u3 >= ta + WINDOW:
+                continue
+            p4 = _polls(rng, u1 + 1, u2, 6); p5 = _polls(rng, u2 + 1, u3 if third else min(u2 + 2000, ta + WINDOW), 6)
+            toks = ["a%d:%s" % (ta, hx(H))] + ["i%d" % t for t in p1] + ["a%d:%s" % (tb, hx(H))] + ["i%d" % t for t in pa] + ["i%d" % tf] \
+                + ["i%d" % t for t in pb] + ["a%d:%s" % (u1, hx(ns[0]))] + ["i%d" % t for t in p4] + ["a%d:%s" % (u2, hx(ns[1]))] + ["i%d" % t for t in p5]
+            if third:
+                toks += ["a%d:%s" % (u3, hx(ns[2]))] + ["i%d" % t for t in _polls(rng, u3 + 1, u3 + 9000, 8)]
+            out.append(("C02_clean_lossy_transmission", mk(toks), {"all": [(tf, H), (u2, "eom")]}))
         else:
             # C08: after ANY history, the poll 682 symbols after the last burst empties the slot: no later poll reports anything
             toks, t, last = [], t1, t1
